@@ -252,10 +252,15 @@ def stream_of(case, nind):
 
 
 def exposed_of(kind, eff):
-    """[(offset, sid, expected component count, label)] of the inputs the kind exposes"""
+    """[(offset, sid, expected component count, label)] of the inputs whose index column must be in
+    range of a source with the right component count (property text: vertex, normal, each texcoord,
+    tangent and binormal set).  Triangles expose their tangent / binormal sets; polylists and polygons
+    hand them to triangleset(), so the constructor validates EVERY such input there too, paired with an
+    input of the other semantic or not.  Line sets neither expose nor validate them (documented in
+    notes/C09.md): no demand."""
     out = []
     for sem, ncomp, only_first in (('VERTEX', 3, True), ('NORMAL', 3, True), ('TEXCOORD', 2, False)) + \
-            ((('TEXTANGENT', 3, False), ('TEXBINORMAL', 3, False)) if kind == 'tri' else ()):
+            ((('TEXTANGENT', 3, False), ('TEXBINORMAL', 3, False)) if kind in ('tri', 'polylist', 'polygons') else ()):
         b = [(off, i) for off, s, i in eff if s == sem]
         if only_first:
             b = b[:1]
